@@ -27,6 +27,15 @@ def handle (op : String) (j : Json) : Except String Json := do
       | _ => throw "bad conn"
     let m : Mod := { ports := ports, conns := conns, nsig := ← getNat j "nsig" }
     pure (Json.mkObj [("res", Json.arr (ports.map fun p => match resolvePort m p with | some v => toJson v | none => Json.null).toArray)])
+  | "rename" =>
+    -- {"conn": sconn with references as pseudo-signals, "rho": [[from, to]]}
+    let c ← parseSConn (← j.getObjVal? "conn")
+    let rho ← (← getArr j "rho").toList.mapM fun e => do
+      match (← e.getArr?).toList with
+      | [a, b] => pure ((← a.getStr?), (← b.getStr?))
+      | _ => throw "bad rho"
+    let ρ : String → String := fun n => match rho.find? (·.1 == n) with | some p => p.2 | none => n
+    pure (Json.mkObj [("bits", exceptJson bitsJson (c.rename ρ).denote)])
   | _ => throw s!"PortRefs: unknown op {op}"
 
 end Hdl21.Drv.PortRefs
